@@ -110,6 +110,21 @@ CLAIMS["C05"] = dict(
     technique="Kani/CBMC step contracts on make_move_new/make_move and is_sane + code-independent validity-preservation lemma over the chess specification",
 )
 
+CLAIMS["C01"] = dict(
+    category="proof",
+    text="Layered contracts on the real generator. Complete (all inputs): legal_king_move and legal_ep_move against a definitional flood-fill legality spec; pseudo_legals of all six piece types against the movement rules; the king producer (steps + castling per Art. 3.8.2) for every valid position; the dispatch enumerate_moves/new_legal on the number of checkers (Verus, extracted text, producers imported by contract); code-independent lemmas S2 that the pin/check-mask shortcut equals definitional legality for every piece type, and that legal steps keep positions valid. Bounded and labelled so: the piece loops of the pawn/knight/bishop/rook/queen producers on the real ArrayVec with at most 3 (pawns: 2) men of that type, via an arbitrary (source,destination) probe (present exactly once iff legal, promotion flag, no empty entry); Board::legal as membership in the generator (<=3 slots). Iterator expansion into moves is C14.",
+    design_ref="DESIGN.md §6 C01",
+    note=TRUST + "piece-loop producers are bounded in the number of men of the type (the loop body is per-piece independent; unbounded Verus proof of the loop is prototyped in DESIGN appendix B but not wired in); table accessors replaced by closed forms proved in C15/C16; S2 lemma proofs are cached by content hash in the quick tier and re-proved in thorough; legality is stated for valid positions (incl. the en-passant history clause).",
+    technique="Kani/CBMC contracts on legality leaves and producers against an independent rules-of-chess spec + Verus proof of the dispatch on extracted text + code-independent SAT lemmas relating the pin-aware shortcut to definitional legality",
+)
+CLAIMS["C04"] = dict(
+    category="proof",
+    text="Board::status is extracted from the real source and verified by Verus against the definition (no legal move and in check -> Checkmate; no legal move and not in check -> Stalemate; otherwise Ongoing) with MoveGen::new_legal(..).len() imported through the contracts proved in C01 (move set) and C14 (len exact on a fresh generator) and 'checkers empty iff not in check' from C03; a Kani obligation checks the same on the unextracted code with new_legal replaced by its contract (bounded to 3 slots).",
+    design_ref="DESIGN.md §6 C04",
+    note=TRUST + "composition: relies on the imported contracts of new_legal/len (C01, C14) and the checkers invariant (C03), listed as assumed in this unit and discharged by those properties' obligations.",
+    technique="Verus contract on the extracted Board::status with callee contracts imported + Kani cross-check with the generator stubbed by its contract",
+)
+
 NOT_YET = {}
 
 
